@@ -33,7 +33,9 @@ MAXV = [None, 0.125, 0.25, 0.5, 1.0, 2.0, 4.0, 8.0, 16.0]
 
 def bound(tier):
   return {"bits": [2, 8], "max_value": MAXV, "slopes": [0, 0.5, 0.25, 0.125],
-          "log2_rounding": ["rnd", "floor"], "lattice": "full product"}
+          "log2_rounding": ["rnd", "floor"], "lattice": "full product",
+          "float32_sweep": "none" if tier == "quick" else "all 2^32 bit patterns (normal, inside the float32 horizon) for "
+                           "%d configurations, 16 shards each" % len(SWEEP_CONFIGS)}
 
 
 def worker_init():
@@ -65,7 +67,85 @@ def enumerate_cases(tier, seed):
             if mn < -126 or mx > 127:   # exponent interval must fit float32's normal range
               continue
             out.append(cfg)
+  if tier == "thorough":
+    for cfg in SWEEP_CONFIGS:
+      for sh in range(SHARDS):
+        out.append(dict(sweep=sh, **cfg))
   return out
+
+
+SWEEP_CONFIGS = [
+    dict(cls="quantized_po2", bits=4, max_value=None, log2_rounding="rnd", slope=0.0),
+    dict(cls="quantized_po2", bits=5, max_value=2.0, log2_rounding="rnd", slope=0.0),
+    dict(cls="quantized_relu_po2", bits=4, max_value=None, log2_rounding="rnd", slope=0.0),
+    dict(cls="quantized_relu_po2", bits=3, max_value=4.0, log2_rounding="floor", slope=0.5),
+]
+SHARDS = 16
+
+
+def run_sweep(cfg):
+  """Complete float32 sweep of one shard of 2^28 bit patterns (see C02.run_sweep): every finite input inside
+  the float32 horizon of the straight-through form is decided (power of two, exponent range, sign, admissible
+  exponent, max_value, monotone in bit-pattern order)."""
+  tf = common.tf_init()
+  common.reset_keras()
+  sh = cfg["sweep"]
+  base = {k: v for k, v in cfg.items() if k != "sweep"}
+  mn, mx = spec(base)
+  mv = base["max_value"]
+  q = make(base)
+  viol = []
+
+  def bad(clause, what, **d):
+    if len(viol) < 5 and not any(v["key"].endswith(clause) for v in viol):
+      viol.append({"key": "%s:sweep:%s" % (base["cls"], clause), "what": "%s float32 sweep %s: %s" % (base["cls"], clause, what),
+                   "detail": dict(cfg=cfg, **d)})
+  BL = 1 << 22
+  start = sh << 28
+  negative = sh >= 8
+  decided = 0
+  prev = None
+  h = 0
+  for b in range((1 << 28) // BL):
+    pats = np.arange(start + b * BL, start + (b + 1) * BL, dtype=np.uint64).astype(np.uint32)
+    x = pats.view(np.float32)
+    fin = np.isfinite(x)
+    if not fin.any():
+      continue
+    x = x[fin]
+    x64 = x.astype(np.float64)
+    v, sgn = magnitude(base, x64)
+    lo, hi = admissible_exp(base, v)
+    keep = (np.abs(x64) < 2.0 ** 22 * 2.0 ** lo) & (np.abs(x64) >= float(np.finfo(np.float32).tiny))
+    if not keep.any():
+      continue
+    x, x64, v, sgn, lo, hi = x[keep], x64[keep], v[keep], sgn[keep], lo[keep], hi[keep]
+    y64 = np.asarray(q(tf.constant(x)), dtype=np.float64)
+    decided += int(x.size)
+    mant, ex = np.frexp(np.abs(y64))
+    e = ex - 1
+    ok = np.isfinite(y64) & (y64 != 0) & (mant == 0.5) & (e >= mn) & (e <= mx) & (np.sign(y64) == sgn) & (e >= lo) & (e <= hi)
+    if mv is not None:
+      ok &= np.abs(y64) <= mv
+    if not ok.all():
+      i = int(np.flatnonzero(~ok)[0])
+      bad("output", "x=%r -> %r; admissible exponents [%d,%d] within [%d,%d]" % (float(x[i]), float(y64[i]), lo[i], hi[i], mn, mx),
+          x=float(x[i]))
+    seq = y64 if not negative else -y64       # in bit-pattern order |x| ascends; the output (resp. its negative) must not decrease
+    if base["cls"] == "quantized_relu_po2" and negative and not base["slope"]:
+      seq = -np.abs(y64) * 0                  # constant smallest code for negatives: nothing to order
+    dec = np.diff(seq) < 0
+    if dec.any():
+      excuse = (hi[1:] >= lo[:-1]) & (lo[1:] <= hi[:-1]) & (np.maximum(hi[1:], hi[:-1]) > np.minimum(lo[1:], lo[:-1]))
+      dec = dec & ~excuse
+      if dec.any():
+        i = int(np.flatnonzero(dec)[0])
+        bad("monotone", "output magnitude decreases between adjacent float32 inputs near x=%r" % float(x[i]))
+    h = (h * 1000003 + int(np.sum(e[:: 4099])) + int(x.size)) % (1 << 61)
+  return {"evals": decided, "transitions": (1 << 28) // BL, "nontrivial": int(decided > 0),
+          "state": "sweep:%r:%d" % (sorted(base.items(), key=lambda kv: kv[0]), sh), "digest": common.digest(h, decided),
+          "violations": viol, "traces": decided, "info": {"sweep_inputs_decided": decided},
+          "sample": {"sweep_config": base, "shard": sh, "inputs_decided": decided}}
 
 
 def make(cfg, **extra):
@@ -119,6 +199,8 @@ def admissible_exp(cfg, v):
 
 
 def run_case(cfg):
+  if "sweep" in cfg:
+    return run_sweep(cfg)
   tf = common.tf_init()
   common.reset_keras()
   mn, mx = spec(cfg)
